@@ -74,26 +74,40 @@ inductive OEv where
   | viol (what : String)
 deriving Repr, DecidableEq
 
+def samplesOf (evs : List OEv) : List (String × Bool) :=
+  evs.filterMap fun | .sample t f => some (t, f) | _ => none
+
+def reqsOf (evs : List OEv) : List String :=
+  evs.filterMap fun | .req n => some n | _ => none
+
+def isViol : OEv → Bool
+  | .viol _ => true
+  | _ => false
+
+/-- the tag a sample of step `n` of scenario `scName` must carry -/
+def wantTag (scName n : String) (failed : Bool) : String :=
+  if failed then scName ++ "." ++ n ++ "|__EMPTY__" else scName ++ "." ++ n
+
+/-- stop on failure: a failed sample is the last event -/
+def afterFail : List OEv → Bool
+  | [] => true
+  | .sample _ true :: rest => rest.isEmpty
+  | _ :: rest => afterFail rest
+
 /-- verdict for one shot: `expected` = step names of the scenario (listed order with multiplicities) -/
 def shotVerdict (scName : String) (expected : List String) (evs : List OEv) : String :=
-  let samples := evs.filterMap fun | .sample t f => some (t, f) | _ => none
-  let reqs := evs.filterMap fun | .req n => some n | _ => none
-  match evs.find? (fun | .viol _ => true | _ => false) with
+  let samples := samplesOf evs
+  let reqs := reqsOf evs
+  match evs.find? isViol with
   | some (.viol w) => if w.startsWith "panic" then s!"fail:crash:{w}" else s!"fail:pause:{w}"
   | _ =>
   -- order: the i-th reported sample belongs to the i-th listed step
-  let tagsOK := (samples.zip expected).all fun ((t, f), n) =>
-    t == (if f then scName ++ "." ++ n ++ "|__EMPTY__" else scName ++ "." ++ n)
+  let tagsOK := (samples.zip expected).all fun ((t, f), n) => t == wantTag scName n f
   if samples.length > expected.length then "fail:order:more samples than steps"
   else if !tagsOK then "fail:order:sample tags do not follow the listed order"
   else if !(reqs.zip expected).all (fun (r, n) => r == n) || reqs.length > samples.length then
     "fail:order:requests do not follow the listed order"
   else
-    -- stop on failure: a failed sample is the last event
-    let rec afterFail : List OEv → Bool
-      | [] => true
-      | .sample _ true :: rest => rest.isEmpty
-      | _ :: rest => afterFail rest
     if !afterFail evs then "fail:stop:events after the failed step"
     else if samples.all (fun s => !s.2) && samples.length != expected.length then
       "fail:mult:no failure but not every step was executed"
